@@ -529,3 +529,122 @@ def desc_mentions_field(d, field):
 
 def desc_call_name(d):
     return d[1] if isinstance(d, tuple) and d and d[0] == "call" else None
+
+
+# ---------------------------------------------------------------------------
+# linear forms over MIR values:  {'1': const, sym: coef}
+
+def lin_add(a, b, sign=1):
+    if a is None or b is None:
+        return None
+    out = dict(a)
+    for k, v in b.items():
+        out[k] = out.get(k, 0) + sign * v
+    return {k: v for k, v in out.items() if v != 0}
+
+
+def lin_scale(a, c):
+    if a is None:
+        return None
+    return {k: v * c for k, v in a.items() if v * c != 0}
+
+
+def lin_const(a):
+    """constant value if the form is constant"""
+    if a is None:
+        return None
+    if set(a) <= {"1"}:
+        return a.get("1", 0)
+    return None
+
+
+def lin_fmt(a):
+    if a is None:
+        return "?"
+    parts = []
+    for k, v in sorted(a.items(), key=lambda kv: (kv[0] == "1", kv[0])):
+        if k == "1":
+            parts.append("%+d" % v)
+        else:
+            parts.append(("%+d*%s" % (v, k)) if v not in (1, -1) else ("+" + k if v == 1 else "-" + k))
+    s = "".join(parts) or "0"
+    return s.lstrip("+")
+
+
+def linform(fn, o, leaf, depth=0):
+    """Evaluate operand `o` as a linear form. leaf(fn, kind, payload) -> symbol or None, with
+    kind 'call' (payload = terminator) or 'place' (payload = place dict) or 'arg' (payload = index)."""
+    if depth > 16 or o is None:
+        return None
+    if o.get("const"):
+        if "int" in o:
+            v = int(o["int"])
+            ty = o.get("ty", "")
+            if ty.startswith("i"):
+                v = signed(v, bits_of_ty(ty))
+            return {"1": v} if v else {}
+        return None
+    p = op_place(o)
+    if p is None:
+        return None
+    if p["p"]:
+        # checked-arithmetic tuple field `.0`
+        if len(p["p"]) == 1 and p["p"][0][0] == "field" and p["p"][0][1] == 0:
+            sd = fn.single_def(p["l"])
+            if sd and sd[0] == "assign" and sd[1]["k"] == "bin" and "WithOverflow" in sd[1]["op"]:
+                return _lin_rvalue(fn, sd[1], leaf, depth + 1)
+        if p["p"] == [["deref"]]:
+            sd = fn.single_def(p["l"])
+            if sd and sd[0] == "assign" and sd[1]["k"] in ("ref", "rawptr"):
+                return linform(fn, {"copy": sd[1]["a"]}, leaf, depth + 1)
+            if sd and sd[0] == "assign" and sd[1]["k"] == "use":
+                q = op_place(sd[1]["a"])
+                if q is not None:
+                    return linform(fn, {"copy": {"l": q["l"], "p": q["p"] + [["deref"]]}}, leaf, depth + 1)
+        s = leaf(fn, "place", p)
+        return {s: 1} if s else None
+    l = p["l"]
+    if 1 <= l <= fn.argc:
+        s = leaf(fn, "arg", l)
+        return {s: 1} if s else None
+    sd = fn.single_def(l)
+    if sd is None:
+        return None
+    if sd[0] == "call":
+        s = leaf(fn, "call", sd[1])
+        if s:
+            return {s: 1}
+        n = lastseg(sd[1]["f"])
+        if n in ("from", "into", "try_into", "unwrap", "clone") and sd[1]["args"]:
+            return linform(fn, sd[1]["args"][0], leaf, depth + 1)
+        return None
+    return _lin_rvalue(fn, sd[1], leaf, depth + 1)
+
+
+def _lin_rvalue(fn, r, leaf, depth):
+    k = r["k"]
+    if k == "use":
+        return linform(fn, r["a"], leaf, depth)
+    if k == "cast":
+        return linform(fn, r["a"], leaf, depth)
+    if k == "un" and r["op"] == "Neg":
+        return lin_scale(linform(fn, r["a"], leaf, depth), -1)
+    if k == "bin":
+        op = r["op"].replace("WithOverflow", "").replace("Unchecked", "")
+        a = linform(fn, r["a"], leaf, depth)
+        b = linform(fn, r["b"], leaf, depth)
+        if op == "Add":
+            return lin_add(a, b)
+        if op == "Sub":
+            return lin_add(a, b, -1)
+        if op == "Mul":
+            ca, cb = lin_const(a), lin_const(b)
+            if ca is not None:
+                return lin_scale(b, ca)
+            if cb is not None:
+                return lin_scale(a, cb)
+        return None
+    if k in ("ref",):
+        s = leaf(fn, "place", r["a"])
+        return {s: 1} if s else None
+    return None
